@@ -16,6 +16,12 @@ CLAIMED = {
     text='The real name generators are called for every integer of the walked range in 64 configurations and compared with own bijective-numeration arithmetic (distinctness, length, character set, exact capacity at which NamingConventionError must appear); rectangular geometries are built at sizes straddling every capacity limit with the outcome predicted by the oracle and every block name split back into the (column, layer) it was built from; fix/unfix/cycle clauses are evaluated on all 6^5 names over a class-complete alphabet plus random names, with icontract post-conditions on the real functions. Exploration: finite sub-spaces are enumerated completely (stated in the evidence), the property as a whole is unbounded.',
     note='Trusted: own capacity arithmetic (vf/props/c17.py capacity()), own (A3,I2) formatter; alphabetic character sets only (as the quantifier states). The printed-form clause is evaluated only for names the simulator can hold (4th character digit/blank, 5th digit).',
     design='DESIGN.md §3 C17'),
+
+ 'C02': dict(
+    technique='runtime online slicer: own column arithmetic re-cuts every record the real writer produces; real parse_string compared with own slicing; file-level boundary-value round trips under a sys.monitoring record probe',
+    text='For every field of every record kind in the four format tables the real write_values_to_string is driven over the stated value lattice (reals sign x exponent -120..120 x 6 mantissas, integers at and one past the width, names of every length, absent values) with populated or absent neighbours; each produced line is cut by column offsets recomputed from the spec strings and every field compared with what was written (exact for fitting values; reduced precision or a loud failure for over-wide ones; neighbours always intact), and the real parse_string must agree with the own slicing. Thorough walks the whole lattice (exhaustive for that lattice); quick samples the exponent axis. Boundary values also go through the public t2incon/mulgrid/t2data writers and readers with a probe re-slicing every record written in situ.',
+    note='Trusted: C-style % formatting as the definition of the nominal text; own layout parser in vf/oracle/columns.py. Over-long names are outside the quantifier and are not judged. The format tables themselves are taken as given (a wrong table is C01/C03/C13 matter).',
+    design='DESIGN.md §3 C02'),
 }
 
 def main():
